@@ -1,7 +1,7 @@
 (* C20 - Per-covenant coin counts always equal the number of unspent coins.
    Pinned statements only; proofs in STF/Proofs/Counts.v.  [CountsOk (coins, counts)]: for every covenant hash
    h, counts has no entry when no coin is locked by h and otherwise the entry is the number of such coins. *)
-From MelVerif Require Import STF.Model STF.Proofs.Coins STF.Proofs.Counts.
+From MelVerif Require Import STF.Model STF.Proofs.Coins STF.Proofs.Counts STF.Proofs.HashFacts STF.Proofs.PermAccept.
 Open Scope N_scope.
 
 (* inserting a coin keeps the invariant (a coin that overwrites one must carry the same covenant hash: pool
@@ -38,6 +38,14 @@ Theorem C20_batch : forall SO s lh txs s' relevant,
   CountsOk (s_coins s', s_counts s').
 Proof. exact accepted_batch_counts_ok. Qed.
 Print Assumptions C20_batch.
+
+(* the same under the hash-oracle assumptions alone (distinct, new transaction hashes; markers are not coin ids) *)
+Theorem C20_batch_hash : forall SO s lh txs s',
+  apply_tx_batch SO s lh txs = Ok s' -> tip_906 s = true ->
+  CountsOk (s_coins s, s_counts s) -> HashOK SO s txs ->
+  CountsOk (s_coins s', s_counts s').
+Proof. exact accepted_batch_counts_hash. Qed.
+Print Assumptions C20_batch_hash.
 
 (* spending alone never breaks the counts *)
 Theorem C20_spend : forall txs n n',
